@@ -292,6 +292,9 @@ def eval_case(ctx, case, props):
         after = state(objs)
         if got[0] == 'ok':
             declared[d[1]] = d[2]
+            if d[0] == 'worm':
+                wi = d[1] if pool[d[1]]['type'] == 'wormgear' else d[2]
+                case.setdefault('_worm_f', {})[wi] = d[3]
         outcomes.append((got, after != before))
         ctx.count(f'{d[0]} ' + (got[0] if got[0] == 'ok' else got[1]))
         if exp[0] == 'skip':
@@ -426,6 +429,20 @@ def check_assembly(ctx, case, pool, objs, motors, kv):
                                  'got': [e.name for e in pt.elements], 'want': names})
             continue
         want_sl = any(isinstance(o, WormGear) and o.self_locking is True for o in chain)
+        # ... and as the accepted declarations define it: a worm gear is self-locking when the friction coefficient of
+        # the last accepted worm mating that involved it exceeds cos(alpha) * tan(beta) of that worm
+        decl_sl = False
+        for o in chain:
+            if isinstance(o, WormGear) and objs.index(o) in case.get('_worm_f', {}):
+                f_ = case['_worm_f'][objs.index(o)]
+                thr_ = o.pressure_angle.cos() * o.helix_angle.tan()
+                if abs(f_ - thr_) < 1e-12 and not (f_ == 0 and thr_ == 0):
+                    decl_sl = None
+                    break
+                decl_sl = decl_sl or (f_ > thr_)
+        if decl_sl is not None and bool(pt.self_locking) != decl_sl:
+            ctx.violation(case, {'why': f'self_locking is {pt.self_locking} but the accepted worm matings of the chain make it {decl_sl}'})
+            continue
         if bool(pt.self_locking) != want_sl:
             ctx.violation(case, {'why': f'self_locking is {pt.self_locking} but the chain ' + ('contains' if want_sl else 'has no') + ' worm gear flagged self-locking'})
         for attr, val in (('elements', ()), ('self_locking', True)):
